@@ -7,7 +7,7 @@ SPEC = {
     "suites": [
         Suite(name="report", harness="vh_report", runner="report",
               model_deps=["theories/Model/Report.vo"],
-              quick_n=3000, thorough_n=60000,
+              quick_n=6000, thorough_n=60000,
               rule="cases: real config.Expand on structured/damaged bucket syntax (20%); real config.NewConfig "
                    "lookups HasProgram/HasVersion/HasCounter/HasCounterPrefix/HasStack/Rate/HasGOOS/HasGOARCH/"
                    "HasGoVersion on 6-11 probes per generated configuration (20%); real uploader findWork+reports "
@@ -32,8 +32,9 @@ SPEC = {
                   "over exactly the files of the build (true sum below 2^63), completeness, report header, no report "
                   "iff no counters; expansion specified for the documented syntax and in general; the shared rate "
                   "table characterised (one of the configured rates; THE rate when unambiguous); the executable "
-                  "oracle used on the implementation's reports is proved to accept the model's reports outside the "
-                  "two known classes, each of which is exhibited by a witness theorem. The model is tied to the "
+                  "oracle used on the implementation's reports is proved sound (acceptance implies the property's "
+                  "clauses in Prop form with true sums) and to accept the model's reports outside the two known "
+                  "classes, each of which is exhibited by a witness theorem. The model is tied to the "
                   "code by differential execution against the real Expand, NewConfig lookups and uploader.",
     "level_note": "Trusted: Coq kernel+VM, extraction (ExtrOcamlBasic), OCaml glue, Go harness, generators and its "
                   "counter-file writer (checked against the real Parse on every file). Rates/X are modelled as "
@@ -44,8 +45,7 @@ SPEC = {
                   "crypto/rand.Reader. posted_verbatim (bytes POSTed = bytes of local/<week>.json, leftover reports "
                   "passed through unchanged) is only TESTED by the suite (class posted-verbatim), not proved: the "
                   "HTTP phase is C08's model. Unparseable count files (skipped by createReport) cannot reach it "
-                  "through findWork and are not generated. Oracle soundness (report_ok = true implies the Prop "
-                  "statement) is by inspection of Model/Report.report_check, not proved.",
+                  "through findWork and are not generated.",
     "assumptions": [
         "rates, SampleRate and X are non-negative, non-NaN float64 values (config range [0,1]); their order is the order of their bit patterns",
         "encoding/json round-trips the report (names are valid UTF-8); the reports are compared as parsed structures",
@@ -53,7 +53,7 @@ SPEC = {
         "the gate (mode on, week not too old, as-of before the data) is an input boolean here; its computation is property C02",
     ],
     "trusted_base": [],
-    "own_objects": ["theories/Props/C01.vo", "theories/Proofs/ReportOracle.vo", "theories/Proofs/ReportFacts.vo",
+    "own_objects": ["theories/Props/C01.vo", "theories/Proofs/ReportOracleSound.vo", "theories/Proofs/ReportOracle.vo", "theories/Proofs/ReportFacts.vo",
                     "theories/Proofs/AggregateFacts.vo", "theories/Proofs/ConfigFacts.vo", "theories/Model/Report.vo",
                     "theories/Model/ApprovalSpec.vo", "theories/Model/Config.vo", "theories/Lib/Str.vo",
                     "theories/Lib/Assoc.vo"],
